@@ -1902,6 +1902,9 @@ def serialize_graph_into(
                 serialize_value_into(graph_proto.value_info.add(), node_output)
     for output in from_.outputs:
         serialize_value_into(graph_proto.output.add(), from_=output)
+        if output.name in input_names or output.name in from_.initializers:
+            # The annotation was already added with the inputs / initializers above
+            continue
         _maybe_add_quantization_annotation(graph_proto, output)
     if from_.metadata_props:
         _serialize_metadata_props_into(graph_proto.metadata_props, from_.metadata_props)
